@@ -2734,6 +2734,10 @@ class Circuit(Unitary, StateVectorMap, Collection[Operation]):
                 full_grads.append(right_utry @ left.eval_apply_right(grad, loc))
             left.apply_right(M, loc)
 
+        if len(full_grads) == 0:
+            empty = np.zeros((0, self.dim, self.dim), dtype=np.complex128)
+            return left.get_unitary(), empty
+
         return left.get_unitary(), np.array(full_grads)
 
     def perform(
